@@ -119,12 +119,14 @@ CHECKS = {
              'the equivalence proved with Skolem witnesses) and is monotone in mask and size; smear_mask for the three '
              'patterns marks exactly the edges / nodes of marked cells; c_mask_from_centres; CFGrid.make_clip_mask and '
              'ArakawaC.make_clip_mask mark exactly the cells whose polygon intersects (one STRtree query, predicate '
-             'intersects, written through a flat *view*), plus rings. Mesh part (buffer_faces, mask_from_face_indexes, '
-             'UGrid.make_clip_mask: node-sharing rings, contiguous renumbering in original order) is carried by the '
-             'bounded native stand-in only, together with the exhaustive <= 4x4 clause of the property.',
+             'intersects, written through a flat *view*), plus rings. Meshes: mask_from_face_indexes (real body, 0/1-based, every fill '
+             'representation, with and without edges) for any ascending set of kept faces: a face is dropped iff it is not given and '
+             'a kept face gets its rank; a node / edge is kept iff a kept face names it (both directions, with the witness of the '
+             'value-set theory), numbered by its rank among the kept ones. The polygon contracts used are re-verified in this check. '
+             'BOUNDED only: buffer_faces (Python sets of symbolic content) and the exhaustive <= 4x4 clause.',
         note=TRUST + 'Assumed: contracts of Convention.polygons / strtree (contracts/base.py, verified under C02/C06), '
              'SH-STRTREE-QUERY, NP-PAD, NP-NDITER-MULTI-INDEX, NP-FROMITER, NP-RAVEL-VIEW, NP-RESHAPE, NP-ANY-ALL with '
-             'Skolem witnesses. Mesh functions: bounded only (labelled in evidence).',
+             'Skolem witnesses, NP-UNIQUE-VALUESET, contract of sensible_fill_value (C10). buffer_faces: bounded only.',
         technique='AST-generated verification conditions over the real source with existential witnesses (QUANT-SKOLEM), z3; exhaustive native enumeration up to 4x4',
         design_ref='Part III C07'),
     'C06': dict(
